@@ -1,7 +1,15 @@
 (* Properties_C09 -- lookup and membership agree with iteration and the helpers.
-   Statements only. *)
+   Statements only.
+   WHOLE DOCUMENTS: for the map the reader returns for a map literal over the reader fragment (keys and values integers,
+   keywords, nested lists / vectors; trivia and discarded forms in the gaps; any number of entries), looking up ANY value
+   that denotes the term of key i -- an independently read copy of that key -- yields entry i, contains-key is true and
+   the i-th stored value denotes the i-th value term, whatever the duplicate check did to the keys' hash caches
+   (C09_lookup_in_read_map_partial); membership in the set the reader returns for a set literal holds exactly for the
+   values equal to one of its elements (C09_membership_in_read_set_partial). *)
 From Coq Require Import ZArith NArith List Bool.
 From Verif Require Import Lanes Common Values Equality Api EqBasics EqEquiv LookupIndex.
+From Coq Require Import NArith.
+From Verif Require Import Scan Reader Configs FlagProofs RoundTrip RoundTripEq RoundTripGap RoundTripSet RoundTripMap RoundTripLookup.
 Import ListNotations.
 
 Section C09.
@@ -51,6 +59,30 @@ Theorem C09_helpers : forall m name ns key,
 Proof. exact (helpers_are_lookup c xe). Qed.
 End C09.
 
+(* whole documents *)
+Theorem C09_lookup_in_read_map_partial : forall c o m l tl, In c all_cfgs -> mapwf l None tl ->
+  let ts := map (fun en => gerase (ekey en)) l in
+  Forall (fun t => (tdepth t <= max_depth)%nat) ts -> Forall tsmall ts -> (Z.of_nat (List.length l) < 2 ^ 64)%Z ->
+  ~ has_equal_terms c ts ->
+  slice m 0 (List.length (maptext l None tl)) = maptext l None tl ->
+  exists r s n, run_doc c o m (N.of_nat (List.length (maptext l None tl))) = Ret r s /\ r_value r = Some n /\ r_err r = EOk /\
+    exists ks' vx, nval n = VMap ks' vx /\ Forall2 (denotes c) (map (fun en => gerase (eval_ en)) l) vx /\
+      forall i p, (i < List.length l)%nat -> denotes c (nth i ts (TKw [])) p ->
+        map_lookup c no_ext_equal n p = Some i /\ map_contains c no_ext_equal n p = true.
+Proof. exact map_lookup_document. Qed.
+
+Theorem C09_membership_in_read_set_partial : forall c o m els tl, In c all_cfgs -> setwf els tl ->
+  let ts := map (fun p => gerase (snd p)) els in
+  Forall (fun t => (tdepth t <= max_depth)%nat) ts -> Forall tsmall ts -> (Z.of_nat (List.length els) < 2 ^ 64)%Z ->
+  ~ has_equal_terms c ts ->
+  slice m 0 (List.length (settext els tl)) = settext els tl ->
+  exists r s n, run_doc c o m (N.of_nat (List.length (settext els tl))) = Ret r s /\ r_value r = Some n /\ r_err r = EOk /\
+    forall t p, (tdepth t <= max_depth)%nat -> denotes c t p ->
+      (set_contains c no_ext_equal n p = true <-> exists t', In t' ts /\ canon c t' = canon c t).
+Proof. exact set_membership_document. Qed.
+
+Print Assumptions C09_membership_in_read_set_partial.
+Print Assumptions C09_lookup_in_read_map_partial.
 Print Assumptions C09_copy_of_key_finds_its_entry_partial.
 Print Assumptions C09_lookup_first.
 Print Assumptions C09_absent.
